@@ -277,6 +277,18 @@ MUTATIONS += [
     dict(id="C16-open-hot-alone-accepted", prop="C16", file="crates/core/src/repository.rs", old="        match (config.is_hot == Some(true), self.be_hot.is_some()) {\n            (true, false) => {", new="        match (config.is_hot == Some(true), self.be_hot.is_some()) {\n            (true, false) if config.is_hot.is_none() => {"),
 ]
 
+# ---- C03 ordering kernels
+RSNF = "crates/core/src/commands/repair/snapshots.rs"
+ARF = "crates/core/src/archiver.rs"
+MUTATIONS += [
+    dict(id="C03-repair-snapshot-saved-before-flush", prop="C03", file=RSNF, old="                    modified_snapshots.push(snap);", new="                    let _new_id = be.save_file(&snap)?;\n                    modified_snapshots.push(snap);"),
+    dict(id="C03-repair-delete-before-flush", prop="C03", file=RSNF, old="    modifier.finalize()?;\n\n    for snap in modified_snapshots {", new="    if opts.delete && !dry_run {\n        be.delete_list(\n            true,\n            state.delete.iter(),\n            repo.progress_counter(\"remove defect snapshots\"),\n        )?;\n    }\n    modifier.finalize()?;\n\n    for snap in modified_snapshots {"),
+    dict(id="C03-backup-snapshot-before-index", prop="C03", file=ARF, old="        self.indexer.write().unwrap().finalize()?;\n\n        summary.finalize(&self.snap.time);\n        self.snap.summary = Some(summary);\n\n        if !skip_identical_parent || Some(self.snap.tree) != self.parent.tree_id() {\n            let id = self.be.save_file(&self.snap)?;\n            self.snap.id = id.into();\n        }\n", new="        summary.finalize(&self.snap.time);\n        self.snap.summary = Some(summary);\n\n        if !skip_identical_parent || Some(self.snap.tree) != self.parent.tree_id() {\n            let id = self.be.save_file(&self.snap)?;\n            self.snap.id = id.into();\n        }\n        self.indexer.write().unwrap().finalize()?;\n"),
+    dict(id="C03-backup-index-before-tree-packs", prop="C03", file=ARF, old="        let stats = self.file_archiver.finalize()?;\n        let (id, mut summary) = self.tree_archiver.finalize(self.parent.tree_id())?;\n        stats.apply(&mut summary, BlobType::Data);\n        self.snap.tree = id;\n\n        self.indexer.write().unwrap().finalize()?;\n", new="        let stats = self.file_archiver.finalize()?;\n        self.indexer.write().unwrap().finalize()?;\n        let (id, mut summary) = self.tree_archiver.finalize(self.parent.tree_id())?;\n        stats.apply(&mut summary, BlobType::Data);\n        self.snap.tree = id;\n\n"),
+    dict(id="C03-prune-packs-before-index-files", prop="C03", file=PR, old="    // remove old index files first as they may reference pack files which are removed soon.\n    if !indexes_remove.is_empty() && !early_delete_index {\n        let p = repo.progress_counter(\"removing old index files...\");\n        be.delete_list(true, indexes_remove.iter(), p)?;\n    }\n\n    if !data_packs_remove.is_empty() {\n        let p = repo.progress_counter(\"removing old data packs...\");\n        be.delete_list(false, data_packs_remove.iter(), p)?;\n    }\n", new="    if !data_packs_remove.is_empty() {\n        let p = repo.progress_counter(\"removing old data packs...\");\n        be.delete_list(false, data_packs_remove.iter(), p)?;\n    }\n\n    // remove old index files\n    if !indexes_remove.is_empty() && !early_delete_index {\n        let p = repo.progress_counter(\"removing old index files...\");\n        be.delete_list(true, indexes_remove.iter(), p)?;\n    }\n"),
+    dict(id="C03-writer-index-entry-despite-failed-write", prop="C03", file=PK, old="        self.be\n            .write_bytes(FileType::Pack, &id, self.cacheable, file)?;\n        index.time = Some(Timestamp::now());", new="        _ = self.be.write_bytes(FileType::Pack, &id, self.cacheable, file);\n        index.time = Some(Timestamp::now());"),
+]
+
 HARMLESS = [
     dict(id="H-C05-trees-symlink-continue", prop="C05", file=CK, old="        for node in tree.nodes {\n            match node.node_type {", new="        for node in tree.nodes {\n            if node.node_type == NodeType::Symlink {\n                continue;\n            }\n            match node.node_type {"),
 ]
